@@ -24,12 +24,14 @@
 (***************************************************************************)
 EXTENDS Integers, Sequences, FiniteSets, TLC, Json
 
-CONSTANT TraceFile
+CONSTANTS TraceFile,
+          Mode      \* "lin": linearizability (C08);  "metrics": accounting of removals (C18), see MetricDelete below;
+                    \* "lin-syncjanitor": "lin" plus the named deviation of SyncMap's janitor (see Cleanup)
 Trace == ndJsonDeserialize(TraceFile)
 
-VARIABLES l, st, pend, ever
+VARIABLES l, st, pend, ever, removed
 
-vars == <<l, st, pend, ever>>
+vars == <<l, st, pend, ever, removed>>
 
 Absent == [v |-> "-", cls |-> "-"]
 Ev == Trace[l]
@@ -47,19 +49,28 @@ Apply(o, s) ==
            THEN {s} ELSE {}
     [] o.op = "Delete" ->
          IF o.res = "ok" /\ s # Absent THEN {Absent}
-         ELSE IF o.res = "notfound" /\ s = Absent THEN {Absent} ELSE {}
+         ELSE IF o.res = "notfound" /\ s = Absent THEN {Absent}
+         ELSE IF Mode = "metrics" THEN {Absent}     \* wrong result is C08's business; only real removals are counted
+         ELSE {}
     [] o.op = "ExpireAll" -> {IF s = Absent THEN Absent ELSE [s EXCEPT !.cls = "stale"]}
     [] o.op = "DeleteAll" -> {Absent}
     [] o.op = "Drop" -> {Absent}              \* write of the key that shares this key's 64-bit hash takes the slot
-    [] o.op = "Cleanup" -> {IF s # Absent /\ s.cls = "old" THEN Absent ELSE s}
+    [] o.op = "Cleanup" ->
+         \* Named deviation (known finding KF-C08-1, SyncMap only, Mode "lin-syncjanitor"): SyncMap's janitor checks an
+         \* entry and then deletes BY KEY, so a Write of the key that overlaps the cycle (o.quiet = FALSE) can be lost.
+         IF Mode = "lin-syncjanitor" /\ ~o.quiet
+           THEN {IF s # Absent /\ s.cls = "old" THEN Absent ELSE s, Absent}
+           ELSE {IF s # Absent /\ s.cls = "old" THEN Absent ELSE s}
     [] o.op = "Evict" -> {s, Absent}          \* eviction may take any entry; rank order is property C12
+    \* cache_delete read at the end of a single-key history without batch operations: one per entry actually removed
+    [] o.op = "MetricDelete" -> IF Mode = "metrics" /\ o.n # removed THEN {} ELSE {s}
     [] o.op = "Walk" ->
          IF o.quiet
            THEN IF (s = Absent /\ o.visits = <<>>) \/ (s # Absent /\ o.visits = <<s.v>>) THEN {s} ELSE {}
            ELSE IF SeqToSet(o.visits) \subseteq ever THEN {s} ELSE {}
     [] OTHER -> {}
 
-Init == l = 1 /\ st = Absent /\ pend = {} /\ ever = {} /\ TLCSet(1, 1)
+Init == l = 1 /\ st = Absent /\ pend = {} /\ ever = {} /\ removed = 0 /\ TLCSet(1, 1)
 
 NextIsUnlinearizedRet ==
   l <= Len(Trace) /\ Ev.ev = "ret" /\ \E o \in pend : o.id = Ev.id
@@ -68,23 +79,24 @@ Call ==
   /\ l <= Len(Trace) /\ Ev.ev = "call"
   /\ pend' = pend \cup {Ev}
   /\ ever' = IF Ev.op = "Write" THEN ever \cup {Ev.v} ELSE ever
-  /\ l' = l + 1 /\ UNCHANGED st
+  /\ l' = l + 1 /\ UNCHANGED <<st, removed>>
 
 Lin ==
   /\ NextIsUnlinearizedRet
   /\ \E o \in pend :
         /\ st' \in Apply(o, st)
         /\ pend' = pend \ {o}
+        /\ removed' = IF o.op = "Delete" /\ st # Absent THEN removed + 1 ELSE removed
   /\ UNCHANGED <<l, ever>>
 
 Ret ==
   /\ l <= Len(Trace) /\ Ev.ev = "ret"
   /\ \A o \in pend : o.id # Ev.id
-  /\ l' = l + 1 /\ UNCHANGED <<st, pend, ever>>
+  /\ l' = l + 1 /\ UNCHANGED <<st, pend, ever, removed>>
 
 Reset ==
   /\ l <= Len(Trace) /\ Ev.ev = "reset"
-  /\ l' = l + 1 /\ st' = Absent /\ pend' = {} /\ ever' = {}
+  /\ l' = l + 1 /\ st' = Absent /\ pend' = {} /\ ever' = {} /\ removed' = 0
 
 Next == Call \/ Lin \/ Ret \/ Reset
 TraceSpec == Init /\ [][Next]_vars
